@@ -7,7 +7,7 @@
    tied to the interpreter by the evalprog / evalseries correspondence runs (checks/c07.py). *)
 From Coq Require Import List NArith ZArith Bool Permutation Floats.SpecFloat.
 From Falco Require Import Base.Res Base.Bytes Model.Float Model.Acl Model.Val Model.Assign Model.Oper
-  Model.Concat Model.Eval Proofs.AclProofs Proofs.EvalLaws Proofs.EvalBits Proofs.ConcatProofs Proofs.EvalFlow.
+  Model.Concat Model.Eval Proofs.AclProofs Proofs.EvalLaws Proofs.EvalBits Proofs.ConcatProofs Proofs.EvalFlow Model.ReGroup Proofs.ReGroupProofs Proofs.FmtProofs Proofs.AssignTableProofs.
 Import ListNotations.
 Local Open Scope Z_scope.
 
@@ -287,6 +287,57 @@ Theorem C07_switch_default_spec : forall parse_ip re_match ctl cases dflt s o,
   end.
 Proof. exact switch_default_spec. Qed.
 
+(* ---------------------------------------------------------------- round 5: text conversions, re.group, regenerated admissibility *)
+
+(* T tie: for all 15 x 9 x 9 (operator, left type, right type) cells the model admits a variable operand exactly when
+   interpreter/assign/*.go has a case for the pair, and refuses a literal exactly when that case starts with the
+   right.IsLiteral() guard (Gen/AssignTable.v is regenerated from the Go type switches on every run) *)
+Theorem C07_assign_admissibility_regenerated : all_cells_ok = true.
+Proof. exact assign_admissibility_regenerated. Qed.
+
+(* INTEGER -> STRING: the decimal digits denote the number *)
+Theorem C07_dec_nat_value : forall n, 0 <= n -> dv (dec_nat n) = n.
+Proof. exact dec_nat_value. Qed.
+
+(* FLOAT / RTIME -> STRING: the three decimals are the nearest thousandth of the exact binary value, ties to even *)
+Theorem C07_milli_rounds_half_even : forall m e, e < 0 ->
+  let n := Z.pos m * 1000 in
+  let d := 2 ^ (- e) in
+  let q := milli m e in
+  2 * Z.abs (q * d - n) <= d /\ (2 * Z.abs (q * d - n) = d -> Z.even q = true).
+Proof. exact milli_rounds_half_even. Qed.
+
+Theorem C07_fmt3_specials :
+  fmt3 S754_nan = s_NaN /\ fmt3 (S754_infinity false) = s_pInf /\ fmt3 (S754_infinity true) = s_nInf /\
+  fmt3 (S754_zero true) = minus_sign :: digit 0 :: dot :: [digit 0; digit 0; digit 0].
+Proof. exact fmt3_specials. Qed.
+
+(* re.group.N: a failing match keeps the groups, a successful one replaces all of them, a called subroutine starts
+   without groups and cannot change its caller's *)
+Theorem C07_regroup_kept_on_failure : forall g n, read (snd (trace_op g (RMatch None))) n = read g n.
+Proof. exact regroup_kept_on_failure. Qed.
+
+Theorem C07_regroup_replaced_on_success : forall g l n,
+  read (snd (trace_op g (RMatch (Some l)))) n =
+  match nth_error l n with Some s => VStr s false | None => VStr [] true end.
+Proof. exact regroup_replaced_on_success. Qed.
+
+Theorem C07_regroup_call_frame : forall g body, snd (trace_op g (RCall body)) = g.
+Proof. exact regroup_call_frame. Qed.
+
+Theorem C07_regroup_last_success_wins : forall g pre l post,
+  Forall (fun o => match o with RMatch None => True | RCall _ => True | _ => False end) post ->
+  final g (pre ++ RMatch (Some l) :: post) = l.
+Proof. exact regroup_last_success_wins. Qed.
+
+(* FINDING (recorded, not repaired): INTEGER arithmetic out of range wraps silently - no error, no saturation, no
+   inf flag - although the `> math.MaxInt64` branches of addition.go / subtraction.go / multiplication.go show that
+   saturation with the +inf flag was intended (they are dead code on int64) *)
+Theorem C07_integer_overflow_wraps_refuted :
+  assign (fun _ => None) OpAdd (VInt (2 ^ 62) false false false) (rint (2 ^ 62) false true)
+  = AOk (VInt (- 2 ^ 63) false false false).
+Proof. exact ex_add_wraps. Qed.
+
 Print Assumptions C07_acl_impl_eq_spec.
 Print Assumptions C07_acl_spec_meaning.
 Print Assumptions C07_acl_perm_invariant.
@@ -334,3 +385,12 @@ Print Assumptions C07_switch_selects_first_match.
 Print Assumptions C07_switch_fallthrough_step.
 Print Assumptions C07_switch_fallthrough_spec.
 Print Assumptions C07_switch_default_spec.
+Print Assumptions C07_assign_admissibility_regenerated.
+Print Assumptions C07_dec_nat_value.
+Print Assumptions C07_milli_rounds_half_even.
+Print Assumptions C07_fmt3_specials.
+Print Assumptions C07_regroup_kept_on_failure.
+Print Assumptions C07_regroup_replaced_on_success.
+Print Assumptions C07_regroup_call_frame.
+Print Assumptions C07_regroup_last_success_wins.
+Print Assumptions C07_integer_overflow_wraps_refuted.
